@@ -530,7 +530,7 @@ def gen_shop(rng, nprod=None, nord=None):
             buyer.meta['xsi_type'] = True
             buyer.meta['required_children'] = ['name', 'vat']
             if rng.random() < 0.5:
-                buyer.attrs.append(('', 'country', 'FR'))
+                buyer.attrs.append(('', 'country', rng.choice(('FR', 'FR', ''))))     # '' is a value too (the default is IT)
         o.children.append(buyer)
         if rng.random() < 0.5:
             o.attrs.append(('', 'contact', f'p{pid}'))
